@@ -4,6 +4,7 @@ import DrummerVerif.Lemmas.KStep
 import DrummerVerif.Bridge.Bridge
 import DrummerVerif.Lemmas.Quiet
 import DrummerVerif.Lemmas.Cadence
+import DrummerVerif.Lemmas.Renew
 /-!
 # C11 — only stray replicas are killed, and kill requests stop once they are gone
 
@@ -173,6 +174,28 @@ theorem quiet_window :
           QuietSteps l l' ∧ Loop.Settled l' ∧ DB.Fresh l'.db (s + k * tickInterval) ∧ 0 < l'.db.tick ∧
             l'.db.tick ≤ l.db.tick + k * tickInterval :=
   @_root_.Drummer.quiet_window
+
+/-! ### reports renew the window
+
+`Loop.ViewsHosted`: every member record of every view is run by the NodeHost its address names. `DB.Since d t0 A`: every
+record whose address is in `A` has a report time of at least `t0`. -/
+
+/-- a report of NodeHost `a` on a settled, hosted fleet stamps every record named `a` with the current time and leaves the
+others alone -/
+theorem report_renews_the_records_of_its_host :
+    ∀ (l l' : Loop) (a : Addr) (lost : Bool) (n t0 : Nat) (A : List Addr),
+      Loop.Settled l → UniqueShards l.db.image → Loop.ViewsHosted l → t0 ≤ l.db.tick → DB.Since l.db t0 A →
+        Loop.report l a lost = Outcome.ok (l', n) →
+          DB.Since l'.db t0 (a :: A) ∧ Loop.ViewsHosted l' ∧ UniqueShards l'.db.image :=
+  @_root_.Drummer.report_since
+
+/-- once every NodeHost that a record names has reported since `t0`, every record is at most `now - t0` old: the next
+quiet window starts from there -/
+theorem records_are_fresh_once_every_host_has_reported :
+    ∀ (d : DB) (t0 : Nat) (A : List Addr), 0 < t0 → DB.Since d t0 A →
+      (∀ c ∈ d.image.shards, ∀ r ∈ c.replicas, r.address ∈ A) →
+        (∀ c ∈ d.image.shards, ∀ r ∈ c.replicas, r.tick ≤ d.tick) → DB.Fresh d (d.tick - t0) :=
+  @_root_.Drummer.since_all_fresh
 
 end C11
 end Drummer
